@@ -36,9 +36,11 @@ NOT_COVERED = [
     "visitors not under contract (statements, types, comments, identifiers, expression lists, expression_atom, "
     "_visit_binary_operator_chain) and the whole DataTypeBuilder / Constant / serializable-type constructors: the ghost flag "
     "visitor_crashed is excluded only for the visitors listed under functions_under_contract",
-    "_namespace_reader._read_definitions (nested class, recursion, mutable sets: out of the engine's reach): its path "
-    "attachment is the same two statements as in DSDLDefinition.read, whose clause `raises-post#Error#path-attached` is proved "
-    "under C09 (specs/c09.py, props C09 + C13); the whole_text extra check observes a path on every rejected definition (bounded)",
+    "_namespace_reader._read_definitions / read_definitions are under contract in their own process (runner C10R, "
+    "specs/c10_reader.py; result included as the extra check reader_contracts): only pydsdl Errors leave, a pydsdl Error of "
+    "read() leaves unchanged with a known path, anything else is wrapped into InternalError with the target's path - relative "
+    "to the assumed model of ReadableDSDLFile.read (specs/drivers/reader_model.py); those obligations are reported under "
+    "extra_checks, not under coverage.obligations",
     "_operator.attribute and SerializableType._attribute (assumed exception-class contract: iteration over a BitLengthSet "
     "is not modelled); fields of a service type: ServiceType._check_aggregation is proved to report a failure, that "
     "CompositeType.__init__ turns it into AggregationError before computing the layout is C05's subject (whole_text: bounded)",
@@ -181,4 +183,7 @@ def whole_text(eng, tier, seed):
                            for cat, c in sorted(found.items())]}
 
 
+from .reader_link import reader_contracts  # noqa: E402  contracts of the namespace reader, proved in their own process (C10R)
+
 EXTRA_CHECKS = [whole_text]
+EXTRA_CHECKS = EXTRA_CHECKS + [reader_contracts]
